@@ -306,6 +306,30 @@ def check_config(cfg, w, rep):
                               loc=e.loc(), config=cfg, rule="d-replacing-rename")
             else:
                 rep.ob(cfg, "d-replacing-rename", fn_key(lf), "`%s` publishes with persist (rename replaces an existing file)" % short(lf.path))
+            # ... and it is always attempted: no success is reported (returned, or sent on the close channel as an explicit
+            # Ok / as persist's own result) on a path that went round the rename — "a file is already there" does not mean
+            # that it holds these bytes
+            pbody = e.body
+            pcf = prog.cfg(pbody)
+            targets = []
+            sends = [(blk_, t_) for blk_, t_ in pbody.calls() if t_.callee is not None and t_.callee.path.endswith("oneshot::Sender::<T>::send")
+                     and blk_.i in pcf.live()]
+            if sends:
+                for blk_, t_ in sends:
+                    lv = prog.resolve_op(pbody, t_.args[1], OKFLOW, blk_.i)
+                    if any(o_.kind == "agg" and o_.info.j.get("path", "").endswith("::Result") and o_.info.j.get("variant") == "Ok" for o_ in lv):
+                        targets.append(blk_.i)
+            else:
+                targets = [rd.blk for rd in ret_defs(prog, pbody) if rd.cls in ("success", "unknown")]
+            round_ = [b_ for b_ in targets if b_ in pcf.reachable(0, cut_nodes={e.blk})]
+            if round_:
+                rep.violation("d-skipped:%s" % fn_key(lf),
+                              "`%s` can report success without having attempted the rename onto the content address (at %s): whatever "
+                              "already sits there — a file damaged earlier, a stale link — stays, and reads after the successful write "
+                              "would not return the bytes written" % (short(lf.path), blk_loc(pbody, round_[0])),
+                              loc=blk_loc(pbody, round_[0]), config=cfg, rule="d-replacing-rename")
+            else:
+                rep.ob(cfg, "d-replacing-rename", fn_key(lf) + ":always", "every success `%s` reports has passed the rename" % short(lf.path))
             if ok:
                 rep.ob(cfg, "d-address", fn_key(lf), "`%s` persists to content_path(cache, builder.result())" % short(lf.path))
             else:
